@@ -58,6 +58,28 @@ class RecPipe(prims.SimPipeQueue):
         return x
 
 
+class RecSimple(prims.SimQueue):
+    """multiprocessing.SimpleQueue, should the code under test come to use one: no feeder thread - put() writes into the pipe
+    itself and blocks while the pipe is full (capacity in items = pipe_cap, unbounded for small payloads)"""
+
+    def __init__(self, name="simple", pipe_cap=None):
+        super().__init__(pipe_cap or 0, name)
+        self.rendezvous = pipe_cap == 0     # one item is larger than the pipe: the write completes only while a reader reads
+        self.got = []
+        self.inflight = {}
+        self.empty_while_inflight = 0
+
+    def put(self, x, block=True, timeout=None):
+        super().put(x, block, timeout)
+        if self.rendezvous:
+            S().yield_point(lambda: not any(y is x for y in self.items), what=self.name + ".put:payload-larger-than-the-pipe")
+
+    def get(self, block=True, timeout=None):
+        x = super().get(block, timeout)
+        self.got.append(x)
+        return x
+
+
 class Run:
     pass
 
@@ -83,7 +105,7 @@ def run_sim(case):
         return f(x)
 
     def mkq(maxsize=0):
-        q = RecPipe(maxsize, name="pq%d" % len(r.queues), pipe_cap=case.get("pipe_cap"))
+        q = RecPipe(maxsize, name="pq%d" % len(r.queues), pipe_cap=case.get("pipe_cap") or (1 if case.get("pipe_cap") == 0 else None))
         r.queues.append(q)
         return q
 
@@ -120,6 +142,12 @@ def run_sim(case):
     with dispatch.Patch() as patch:
         if case["kind"] == "fmap":
             patch.set(pools, "Queue", mkq)
+
+            def mks():
+                q = RecSimple(name="sq%d" % len(r.queues), pipe_cap=case.get("pipe_cap"))
+                r.queues.append(q)
+                return q
+            patch.set(pools, "SimpleQueue", mks, required=False)
         else:
             patch.set(wk.FunRunner, "WORK_QUEUE", mkq(case.get("wq_bound", 16)))
             patch.set(wk.FunRunner, "RESULTS_QUEUE", mkq())
@@ -279,7 +307,7 @@ def strategies(tier):
     fmap = st.fixed_dictionaries({"kind": st.just("fmap"), "workers": st.sampled_from([1, 2, 2, 3]),
                                   "calls": st.lists(call, min_size=1, max_size=3),
                                   "slow": st.dictionaries(st.sampled_from(["0", "1", "2", "5"]), st.sampled_from([5, 50, 500]), max_size=2),
-                                  "pipe_cap": st.sampled_from([None, None, 1, 2]),
+                                  "pipe_cap": st.sampled_from([None, None, 1, 2, 0]),
                                   "sched": schedules.strategy()})
     mulp = st.fixed_dictionaries({"kind": st.just("mulp"), "workers": st.sampled_from([1, 2, 3]), "wq_bound": st.sampled_from([1, 2, 4, 16]),
                                   "calls": st.lists(PC.call_strategy(max_n=10).map(lambda c: dict(c, mode="o", chunk=1)), min_size=1, max_size=2),
